@@ -11,6 +11,9 @@
 (*   Op       [op, res]           operation invoked after a Close had returned:                    *)
 (*                                res = "ok" | "closed" | "error" | "panic" | "hang"               *)
 (*   Panic    [where]             a panic was recovered somewhere in the component                 *)
+(*   Round    [counts]            hammer: one more instance of the component was closed by N      *)
+(*                                closers released together, all have returned; counts = how often *)
+(*                                each clean-up action (registered before the round) ran           *)
 (*   Quiesce  [moved, traffic, leaked, top, pending]                                               *)
 (*                                all closers returned and pending I/O unblocked: bytes the        *)
 (*                                component moved (judged if traffic), goroutines of the component *)
@@ -72,6 +75,14 @@ TrPanic == /\ Is("Panic")
            /\ viol' = viol \cup {V("NoPanic", comp \o ":" \o Ev.where)}
            /\ l' = l + 1 /\ UNCHANGED <<comp, sync, anyCall, open, nret, must, cnt, sum>>
 
+\* one hammer round: a complete little trace of its own, reduced to the counts
+TrRound ==
+  /\ Is("Round")
+  /\ LET c == Ev.counts IN
+     viol' = viol \cup {V("AtMostOnce", comp \o ":" \o h) : h \in {x \in DOMAIN c : c[x] >= 2}}
+                  \cup {V("AtLeastOnce", comp \o ":" \o h \o ":at-quiescence") : h \in {x \in DOMAIN c : c[x] = 0}}
+  /\ l' = l + 1 /\ UNCHANGED <<comp, sync, anyCall, open, nret, must, cnt, sum>>
+
 TrQuiesce ==
   /\ Is("Quiesce")
   /\ viol' = viol
@@ -86,6 +97,6 @@ TrEnd == /\ Is("End") /\ EmitVerdict
          /\ l' = l + 1 /\ viol' = {} /\ comp' = "?" /\ sync' = FALSE /\ anyCall' = FALSE
          /\ open' = {} /\ nret' = 0 /\ must' = {} /\ cnt' = <<>> /\ sum' = 0
 
-Next == TrCfg \/ TrReg \/ TrCall \/ TrRet \/ TrRan \/ TrReport \/ TrOp \/ TrPanic \/ TrQuiesce \/ TrEnd
+Next == TrCfg \/ TrReg \/ TrCall \/ TrRet \/ TrRan \/ TrReport \/ TrOp \/ TrPanic \/ TrRound \/ TrQuiesce \/ TrEnd
 Spec == Init /\ [][Next]_vars
 =============================================================================
